@@ -78,6 +78,8 @@ pub enum Op {
     FDrop(u8),
     /// `FusedStream::is_terminated` of the stream in the slot
     StreamIsTerm(u8),
+    /// move the stream in the slot to another heap location (it is `Unpin`)
+    MoveStream(u8),
     // ---- handles (index into the thread's handle list of that side)
     Close(Side),
     NewHandle(Side, Conv),
